@@ -186,15 +186,24 @@ def enumerate_mutants(repo, globs):
 
 
 def sh(cmd, cwd=None, env=None, timeout=1800):
+    """run in its own process group; on timeout the whole group is killed (a harness spinning on a mutant must not survive)"""
+    import signal
     e = dict(os.environ)
     e.update({'CARGO_NET_OFFLINE': 'true'})
     if env:
         e.update(env)
+    p = subprocess.Popen(cmd, cwd=cwd, env=e, stdout=subprocess.PIPE, stderr=subprocess.STDOUT, text=True, errors='replace',
+                         shell=isinstance(cmd, str), start_new_session=True)
     try:
-        p = subprocess.run(cmd, cwd=cwd, env=e, stdout=subprocess.PIPE, stderr=subprocess.STDOUT, timeout=timeout, text=True, errors='replace', shell=isinstance(cmd, str))
-        return p.returncode, p.stdout
-    except subprocess.TimeoutExpired as ex:
-        return 124, (ex.stdout or '') if isinstance(ex.stdout, str) else ''
+        out, _ = p.communicate(timeout=timeout)
+        return p.returncode, out
+    except subprocess.TimeoutExpired:
+        try:
+            os.killpg(p.pid, signal.SIGKILL)
+        except OSError:
+            pass
+        out, _ = p.communicate()
+        return 124, out or ''
 
 
 def worker(k, jobs, out_path, jobs_per_cargo):
@@ -223,7 +232,7 @@ def worker(k, jobs, out_path, jobs_per_cargo):
                 status = 'nocompile'
             else:
                 for prop in props_for(mu['file']):
-                    rc, out = sh([os.path.join(ROOT, 'check'), prop, '--tier', 'quick'], cwd=ROOT, env=env, timeout=1500)
+                    rc, out = sh([os.path.join(ROOT, 'check'), prop, '--tier', 'quick'], cwd=ROOT, env=env, timeout=1200)
                     if rc != 0 and 'VIOLATION property=%s' % prop in out:
                         v = [x for x in out.split('\n') if x.startswith('VIOLATION')][0]
                         status = 'detected:%s%s' % (prop, ':obligation-only' if 'no-failing-input-found' in v else '')
@@ -237,6 +246,11 @@ def worker(k, jobs, out_path, jobs_per_cargo):
                         detail += '\n'.join(x for x in out.split('\n') if x.startswith('test ') and 'FAILED' in x)[:600]
         finally:
             open(path, 'w').write(orig)
+            shutil.rmtree(os.path.join(cache, 'work'), ignore_errors=True)
+            shutil.rmtree(os.path.join(cache, 'replays'), ignore_errors=True)
+        if shutil.disk_usage('/tmp').free < 20 * 2 ** 30:
+            print('worker %d: less than 20 GB free, stopping' % k, flush=True)
+            break
         rec = {k2: v for k2, v in mu.items() if k2 != 'new_line'}
         rec.update(status=status, detail=detail, secs=round(time.time() - t0, 1), worker=k)
         with open(out_path, 'a') as f:
